@@ -281,3 +281,107 @@ contract(AR_ + '.loads', types={'xmldata': 'Union(Str, Bytes)', 'decode': 'Any',
                        'C02': ['C02-required-response-signature'], 'C01': ['C01-response-signature-verified']})
 macro('ASS', ['r'], 'as_type(r.assertion, "List(Inst(\'saml2_tophat.saml:Assertion\'))")')
 macro('SCS', ['r', 'a'], 'as_type(r.assertion, "List(Inst(\'saml2_tophat.saml:Assertion\'))")[a].subject.subject_confirmation')
+
+
+# ================================================================================================ per-assertion checks (C01, C02, C04, C05, C17)
+ASRT = "Inst('saml2_tophat.saml:Assertion')"
+SCL = "List(Inst('saml2_tophat.saml:SubjectConfirmation'))"
+contract(AR_ + '.verify_attesting_entity', types={'subject_confirmation': SCL}, returns='Bool', pure=True,
+         ensures=[], raises={}, modifies=[], loops={0: {'inv': ['is_int(correct)'], 'modifies': []}}, local_types={'correct': 'Int'})
+
+contract(AR_ + '.verify_recipient', types={'recipient': 'Opt(Str)'}, returns='Bool', pure=True,
+         ensures=[# C05: with conversation information, a recipient is accepted only if it is the provider's entity id or one of its endpoints
+                  ('C05-recipient', "implies(result is True and truthy(self.conv_info), "
+                                    "(has_key(self.conv_info, 'entity_id') and recipient == self.conv_info['entity_id']) or "
+                                    "(self.return_addrs is not None and recipient in self.return_addrs))"),
+                  ('no-conversation-info', 'implies(not truthy(self.conv_info), result is True)')],
+         raises={'TypeError': 'truthy(self.conv_info) and self.return_addrs is None'}, modifies=[],
+         clauses_from={'C05': ['C05-recipient']})
+
+macro('SCD', ['sc'], 'as_type(sc, "Inst(\'saml2_tophat.saml:SubjectConfirmation\')").subject_confirmation_data')
+macro('BEARER_WINDOW', ['me', 'd'],
+      'implies(truthy(d.not_on_or_after), NOW <= epoch(d.not_on_or_after) + me.timeslack) and '
+      'implies(truthy(d.not_before), epoch(d.not_before) <= NOW + me.timeslack)')
+macro('KEPT_OK', ['me', 'sc'],
+      'SCD(sc) is not None and truthy(SCD(sc).recipient) and '
+      "implies(truthy(me.conv_info), (has_key(me.conv_info, 'entity_id') and SCD(sc).recipient == me.conv_info['entity_id']) or "
+      '(me.return_addrs is not None and SCD(sc).recipient in me.return_addrs)) and '
+      'implies(as_type(sc, "Inst(\'saml2_tophat.saml:SubjectConfirmation\')").method == %r, BEARER_WINDOW(me, SCD(sc)))'
+      % 'urn:oasis:names:tc:SAML:2.0:cm:bearer')
+
+contract(AR_ + '._holder_of_key_confirmed', trusted=True, pure=True, params=['self', 'data'], returns='Bool',
+         note='holder-of-key confirmation (KeyInfo presence among the extension elements); not part of the properties')
+contract('saml2_tophat.sigver:SecurityContext.decrypt', trusted=True, pure=True, params=['self', 'enctext', 'key_file', 'id_attr'],
+         defaults={'key_file': None, 'id_attr': ''}, assumptions=['E-XMLSEC'])
+contract('saml2_tophat:SamlBase.to_string', trusted=True, pure=True, params=['self', 'nspair'], defaults={'nspair': None},
+         returns='Bytes', assumptions=['E-ET'])
+contract('saml2_tophat.saml:name_id_from_string', trusted=True, params=['xml_string'],
+         returns="Opt(Inst('saml2_tophat.saml:NameID'))", raises={'Exception': 'True'}, assumptions=['E-PARSE'])
+
+contract(AR_ + '.get_subject', returns="Opt(Inst('saml2_tophat.saml:NameID'))",
+         requires=['self.assertion is not None'],
+         lets={'SUBJ': 'self.assertion.subject'},
+         ensures=[('subject-present', 'SUBJ is not None'),
+                  # C05 / C04: every confirmation that is kept has an acceptable Recipient and, when bearer, is inside its window
+                  ('C05-kept-confirmations-ok', 'forall(lambda k: KEPT_OK(self, SUBJ.subject_confirmation[k]), 0, len(SUBJ.subject_confirmation))'),
+                  ('at-least-one-confirmation', 'len(SUBJ.subject_confirmation) > 0'),
+                  ('name-id', 'result == self.name_id')],
+         raises={'AssertionError': 'True', 'VerificationError': 'True', 'ValueError': 'True', 'AttributeError': 'True',
+                 'ResponseLifetimeExceed': 'True', 'ToEarly': 'True', 'Exception': 'True'},
+         modifies=['self.came_from', 'self.name_id', 'self.assertion.subject.subject_confirmation'],
+         local_types={'subjconf': SCL},
+         loops={0: {'inv': ['forall(lambda k: KEPT_OK(self, subjconf[k]), 0, len(subjconf))'],
+                    'modifies': ['self.came_from', 'list(subjconf)']}},
+         clauses_from={'C05': ['C05-kept-confirmations-ok'], 'C04': ['C05-kept-confirmations-ok']})
+
+# what "this assertion passed every per-assertion check" means: the post of _assertion, as a macro so that
+# parse_assertion / verify can state it for every assertion they keep
+macro('ASSERTION_CHECKED', ['me', 'a', 'sigdoc', 'sig_verified_elsewhere'],
+      # C02: required signature present; C01: a present signature verified (here, or by decrypt_assertions when flagged)
+      'implies(truthy(me.require_signature), truthy(a.signature)) and '
+      'implies(truthy(a.signature) and not truthy(sig_verified_elsewhere) and me.do_not_verify is False and truthy(a.id), '
+      '        SIG_OK(me.sec, sigdoc, a, cname(a), None)) and '
+      # C04 / C05: validity window and audience of Conditions
+      'implies(not truthy(me.test) and a.conditions is not None and truthy(a.conditions.not_on_or_after), '
+      '        NOW <= epoch(a.conditions.not_on_or_after) + me.timeslack) and '
+      'implies(not truthy(me.test) and a.conditions is not None and truthy(a.conditions.not_before), '
+      '        epoch(a.conditions.not_before) <= NOW + me.timeslack) and '
+      'implies(not truthy(me.test) and a.conditions is not None and truthy(a.conditions.audience_restriction), '
+      '        forall(lambda i: names(a.conditions.audience_restriction[i], me.entity_id), 0, len(a.conditions.audience_restriction))) and '
+      # C05: subject confirmations
+      'a.subject is not None and len(a.subject.subject_confirmation) > 0 and '
+      'forall(lambda k: KEPT_OK(me, a.subject.subject_confirmation[k]), 0, len(a.subject.subject_confirmation))')
+
+contract(AR_ + '._assertion', types={'assertion': ASRT, 'verified': 'Any'}, returns='Bool',
+         requires=['is_str(self.xmlstr) or is_bytes(self.xmlstr)'],
+         ensures=[('true', 'result is True'),
+                  ('current', 'self.assertion == assertion'),
+                  ('C02-required-assertion-signature', 'implies(truthy(old(self.require_signature)), truthy(assertion.signature))'),
+                  ('C01-assertion-signature-verified',
+                   'implies(truthy(assertion.signature) and not truthy(verified) and self.do_not_verify is False and truthy(assertion.id), '
+                   'SIG_OK(self.sec, self.xmlstr, assertion, cname(assertion), None))'),
+                  ('C04-conditions-window',
+                   'implies(not truthy(self.test) and assertion.conditions is not None and truthy(assertion.conditions.not_on_or_after), '
+                   'NOW <= epoch(assertion.conditions.not_on_or_after) + self.timeslack) and '
+                   'implies(not truthy(self.test) and assertion.conditions is not None and truthy(assertion.conditions.not_before), '
+                   'epoch(assertion.conditions.not_before) <= NOW + self.timeslack)'),
+                  ('C04-session-window',
+                   "implies(self.context == 'AuthnReq' and len(assertion.authn_statement) == 1 and "
+                   "truthy(assertion.authn_statement[0].session_not_on_or_after), "
+                   "NOW <= epoch(assertion.authn_statement[0].session_not_on_or_after) + self.timeslack)"),
+                  ('C05-audience',
+                   'implies(not truthy(self.test) and assertion.conditions is not None and truthy(assertion.conditions.audience_restriction), '
+                   'forall(lambda i: names(assertion.conditions.audience_restriction[i], self.entity_id), 0, '
+                   'len(assertion.conditions.audience_restriction)))'),
+                  ('C05-confirmations',
+                   'assertion.subject is not None and len(assertion.subject.subject_confirmation) > 0 and '
+                   'forall(lambda k: KEPT_OK(self, assertion.subject.subject_confirmation[k]), 0, len(assertion.subject.subject_confirmation))'),
+                  ('C05-solicited', 'implies(truthy(self.asynchop) and not truthy(self.allow_unsolicited), self.came_from is not None)')],
+         raises={'SignatureError': 'True', 'SigverError': 'True', 'VerificationError': 'True', 'AssertionError': 'True',
+                 'Exception': 'True'},
+         modifies=['self.assertion', 'self.came_from', 'self.name_id', 'self.not_on_or_after', 'self.session_not_on_or_after',
+                   'assertion.subject.subject_confirmation'],
+         clauses_from={'C02': ['C02-required-assertion-signature'], 'C01': ['C01-assertion-signature-verified'],
+                       'C04': ['C04-conditions-window', 'C04-session-window'],
+                       'C05': ['C05-audience', 'C05-confirmations', 'C05-solicited'],
+                       'C17': ['C04-conditions-window', 'C05-audience', 'C05-confirmations']})
